@@ -82,13 +82,13 @@ def canonicalize_url(
         user = safely_unquote_auth_item(user)
 
         if quoted:
-            user = safely_quote(user)
+            user = safely_quote(user, "/@")
 
     if password:
         password = safely_unquote_auth_item(password)
 
         if quoted:
-            password = safely_quote(password, "/:")
+            password = safely_quote(password, "/:@")
 
     path = safely_unquote_path(path)
 
